@@ -391,8 +391,8 @@ def ctor_check(pid, tier, seed, t0):
             # the process died inside the library: the case that had begun and never reported is the culprit
             begun = [l for l in out if l.startswith("begin ")]
             crashed.append((b, p.returncode, begun[-1] if begun else "(before the first case)"))
-        lines += [l for l in out if not l.startswith("begin ") and l.split()[0] in ("world", "batch") and
-                  l.split()[-1] in ("ok", "panic") or (l.startswith("batch") and " ok " in l)]
+        lines += [l for l in out if not l.startswith("begin ") and l.split()[0] in ("world", "batch", "macro") and
+                  l.split()[-1] in ("ok", "panic") or (l.split()[0] in ("batch", "macro") and " ok " in l)]
     lines = sorted(set(lines))
     cases = []
     for l in lines:
@@ -403,6 +403,9 @@ def ctor_check(pid, tier, seed, t0):
             if t[2] != "-":
                 reg[int(t[3])] = reg[int(t[2])]
             cases.append({"kind": "world", "line": l, "ctor": t[4], "reg": reg, "verdict": t[5]})
+        elif t[0] == "macro":
+            cases.append({"kind": "macro", "line": l, "k": int(t[1]), "evals": [int(x) for x in t[2].split(",")],
+                          "verdict": t[3], "counts": [int(x) for x in t[4:]]})
         else:
             cols = [] if t[2] == "-" else [int(x) for x in t[2].split(",")]
             cases.append({"kind": "batch", "line": l, "cols": cols, "verdict": t[3], "counts": [int(x) for x in t[4:]]})
@@ -414,8 +417,10 @@ def ctor_check(pid, tier, seed, t0):
         f.write("From Brood Require Import Base Facts Ctor.\n")
         f.write("Definition w (k : ctor) (r : list nat) : nat := match construct k r with Returned => 1 | Panicked => 0 end.\n")
         f.write("Definition b (c : list nat) : nat := match batch_new c with Some l => 2 + l | None => 0 end.\n")
+        f.write("Definition m (k : nat) (e : list nat) : nat := match batch_new (macro_cloned k e) with Some l => 2 + l | None => 0 end.\n")
         f.write("Eval vm_compute in [%s].\n" % "; ".join(
             ("w %s [%s]" % (CT[c["ctor"]], "; ".join(map(str, c["reg"])))) if c["kind"] == "world"
+            else ("m %d [%s]" % (c["k"], "; ".join(map(str, c["evals"])))) if c["kind"] == "macro"
             else ("b [%s]" % "; ".join(map(str, c["cols"]))) for c in cases))
     model_err = None
     model = None
@@ -438,8 +443,13 @@ def ctor_check(pid, tier, seed, t0):
     for b, rcode, last in crashed:
         cols = last.split()[-1] if last.startswith("begin batch") else "?"
         cases.append({"kind": "crash", "line": "%s exited with status %s while running: %s" % (b, rcode, last)})
-        viol.append((len(cases) - 1, "the constructor harness died (status %s) inside the library while running '%s': a batch with "
-                                     "column lengths %s reached extend" % (rcode, last, cols)))
+        if last.startswith("begin macro"):
+            viol.append((len(cases) - 1, "the constructor harness died (status %s) inside the library while running '%s': "
+                                         "entities!((c1, .., c%s); n) with a size expression returning %s on successive evaluations built "
+                                         "columns of different lengths in safe code" % (rcode, last, last.split()[2], last.split()[3])))
+        else:
+            viol.append((len(cases) - 1, "the constructor harness died (status %s) inside the library while running '%s': a batch with "
+                                         "column lengths %s reached extend" % (rcode, last, cols)))
     for i, c in enumerate(cases):
         if c["kind"] == "crash":
             continue
@@ -453,6 +463,13 @@ def ctor_check(pid, tier, seed, t0):
                 viol.append((i, "World::%s panicked for a duplicate-free registry of length %d" % (c["ctor"], len(c["reg"]))))
             if model is not None and (model[i] == 1) != (c["verdict"] == "ok"):
                 diverged.append((i, "model says %s" % ("Returned" if model[i] else "Panicked")))
+        elif c["kind"] == "macro":
+            want = c["evals"][0]
+            if c["verdict"] != "ok" or c["counts"] != [want, want, want]:
+                viol.append((i, "entities!((c1, .., c%d); n) with n returning %s on successive evaluations: expected %d well-formed rows, "
+                                "got %s %s" % (c["k"], c["evals"], want, c["verdict"], c["counts"])))
+            if model is not None and model[i] != 2 + want:
+                diverged.append((i, "model says %s" % ("ragged" if model[i] == 0 else "len %d" % (model[i] - 2))))
         else:
             ragged = len(set(c["cols"])) > 1
             if ragged and c["verdict"] != "panic":
